@@ -60,7 +60,7 @@ class LoadParser(handler.ContentHandler):
     def startElementNS(self, tag, qname, attrs):
         if tag in self.triggers:
             self.parse = True
-        if self.doc._parsing != "styles.xml" and tag == (OFFICENS, 'font-face-decls'):
+        if self.doc._parsing.rsplit('/', 1)[-1] != "styles.xml" and tag == (OFFICENS, 'font-face-decls'):
             self.parse = False
         if self.parse == False:
             return
@@ -95,7 +95,7 @@ class LoadParser(handler.ContentHandler):
             e = self.doc.settings
         elif tag == (OFFICENS,'styles'):
             e = self.doc.styles
-        elif self.doc._parsing == "styles.xml" and tag == (OFFICENS, 'font-face-decls'):
+        elif tag == (OFFICENS, 'font-face-decls'):
             e = self.doc.fontfacedecls
         elif hasattr(self,'parent'):
             self.parent.addElement(e, check_grammar=False)
